@@ -101,15 +101,17 @@ def digit_stream(v):
     return None
 
 
-def run(ctx):
+def check_base58(ctx, o=lambda k: "C07.%d" % k):
+    """All Base58 / Base58Check obligations; other properties whose containers are Base58Check strings (WIF, extended keys) run them
+    under their own obligation id."""
     R = ctx.R
     ev = ctx.evaluator()
     site = ("src/bits/base58.py", "bits.base58")
     al = ev.const("bits.base58", "BITCOIN_ALPHABET")
-    R.check("C07.1", "TABLE", site, "alphabet", al == ALPHABET and len(set(ALPHABET)) == 58 and not (set(b"0OIl") & set(ALPHABET)),
+    R.check(o(1), "TABLE", site, "alphabet", al == ALPHABET and len(set(ALPHABET)) == 58 and not (set(b"0OIl") & set(ALPHABET)),
             "the Base58 alphabet differs from Bitcoin's", nontrivial=False)
     mp = ev.const("bits.base58", "BITCOIN_ALPHABET_MAP")
-    R.check("C07.1", "TABLE", site, "digit table inverts the alphabet", isinstance(mp, dict) and mp == {c: i for i, c in enumerate(ALPHABET)},
+    R.check(o(1), "TABLE", site, "digit table inverts the alphabet", isinstance(mp, dict) and mp == {c: i for i, c in enumerate(ALPHABET)},
             "BITCOIN_ALPHABET_MAP is not {character: index} over exactly the alphabet: %s" % tm.show(mp)[:120],
             example="a string containing a character outside the alphabet (0, O, I, l)")
     data = P("data", tm.BYTES)
@@ -121,16 +123,16 @@ def run(ctx):
     zeros = tm.add([tm.length(data), tm.mul([-1, tm.length(stripped)])])
     ok = len(rets) == 1 and isinstance(rets[0].value, T) and rets[0].value.op == "cat" and len(rets[0].value.args) == 2 and \
         tm.veq(rets[0].value.args[0], tm.rep(ALPHABET[0:1], zeros))
-    R.check("C07.1", "TERM-EQ", fe, "encode: one '1' per leading zero byte", ok, "base58encode prefix: %s" % (tm.show(rets[0].value)[:200] if rets else None),
+    R.check(o(1), "TERM-EQ", fe, "encode: one '1' per leading zero byte", ok, "base58encode prefix: %s" % (tm.show(rets[0].value)[:200] if rets else None),
             example="data with leading zero bytes")
     tail = rets[0].value.args[1] if ok else None
     st = digit_stream(tail) if tail is not None else None
     okl = st is not None and (tm.veq(st[0], tm.b2i(stripped, "big")) or tm.veq(st[0], tm.b2i(data, "big"))) and st[1] == 58 and st[3] == "msb" and tm.veq(st[2], tm.idx(ALPHABET, PH))
-    R.check("C07.1", "TERM-EQ", fe, "encode: digits = repeated divmod by 58, most significant first, through the alphabet", okl,
+    R.check(o(1), "TERM-EQ", fe, "encode: digits = repeated divmod by 58, most significant first, through the alphabet", okl,
             "the radix-58 loop of base58encode differs (radix constant, digit order or alphabet indexing)")
     for inp, want in ((b"", b""), (b"\x00", b"1"), (b"\x00\x00", b"11"), (b"\x00" * 5, b"11111")):
         kind, val = rules.outcome(ev.run(fe, {"data": inp}))
-        R.check("C07.1", "CONST", fe, "encode(%r)" % inp, (kind, val) == ("return", want), "base58encode(%r) = %s" % (inp, tm.show(val)),
+        R.check(o(1), "CONST", fe, "encode(%r)" % inp, (kind, val) == ("return", want), "base58encode(%r) = %s" % (inp, tm.show(val)),
                 example="the empty string / all-zero data")
     # ---- decoder
     fd = ctx.fn(B58 + "base58decode")
@@ -140,7 +142,7 @@ def run(ctx):
     ones = tm.add([tm.length(data), tm.mul([-1, tm.length(strip1)])])
     okp = len(rets) == 1 and isinstance(rets[0].value, T) and rets[0].value.op == "cat" and len(rets[0].value.args) == 2 and \
         tm.veq(rets[0].value.args[0], tm.rep(b"\x00", ones))
-    R.check("C07.1", "TERM-EQ", fd, "decode: one zero byte per leading '1'", okp, "base58decode prefix: %s" % (tm.show(rets[0].value)[:200] if rets else None))
+    R.check(o(1), "TERM-EQ", fd, "decode: one zero byte per leading '1'", okp, "base58decode prefix: %s" % (tm.show(rets[0].value)[:200] if rets else None))
     # value accumulation: sum(lookup(MAP, c) * 58**i for i, c in enumerate(reversed(stripped))), or Horner's rule over the
     # remainder read forwards -- judged on the value term the byte conversion starts from
     amap = {c: i for i, c in enumerate(ALPHABET)}
@@ -166,35 +168,35 @@ def run(ctx):
     st = digit_stream(tail) if tail is not None else None
     okv = st is not None and is_value(st[0])
     value_terms = [t for e in rets for t in tm.subterms(e.value) if isinstance(t, T) and t.op in ("sum", "fold")]
-    R.check("C07.1", "TERM-EQ", fd, "decode: value = sum(digit(c) * 58^i) over the reversed remainder (or Horner's rule over the remainder)", okv,
+    R.check(o(1), "TERM-EQ", fd, "decode: value = sum(digit(c) * 58^i) over the reversed remainder (or Horner's rule over the remainder)", okv,
             "the radix-58 accumulation of base58decode differs: %s" % (tm.show(st[0])[:300] if st else (tm.show(value_terms[0])[:300] if value_terms else "no value term")))
     term1 = st[0] if st else None
     # alphabet enforcement: a raising lookup keyed by exactly the alphabet
     look_h = [h for h in s.hazards if h[0] == "KeyError" and isinstance(h[1], T) and h[1].op == "lookup" and rules.unfz(h[1].args[0]) == amap]
-    R.check("C07.3", "DOM", fd, "every character passes a raising lookup keyed by the alphabet", bool(look_h),
+    R.check(o(3), "DOM", fd, "every character passes a raising lookup keyed by the alphabet", bool(look_h),
             "characters are not mapped through a raising lookup over exactly the alphabet (a defaulting/positional lookup accepts foreign characters)",
             example="a valid string with '0' or 'l' substituted in")
     # bytes conversion: the base-256 digits of that value, most significant first (divmod loop, generator, or to_bytes((bits+7)//8))
     okb = st is not None and st[1] == 256 and st[3] == "msb" and tm.veq(st[2], PH)
-    R.check("C07.1", "TERM-EQ", fd, "decode: bytes = minimal big-endian form of the value (divmod 256 loop or to_bytes((bits+7)//8))", okb,
+    R.check(o(1), "TERM-EQ", fd, "decode: bytes = minimal big-endian form of the value (divmod 256 loop or to_bytes((bits+7)//8))", okb,
             "the value is not converted to its minimal big-endian bytes", example="strings whose numeric value is zero")
     for inp, want in ((b"", b""), (b"1", b"\x00"), (b"11", b"\x00\x00"), (b"1111", b"\x00" * 4)):
         kind, val = rules.outcome(ev.run(fd, {"data": inp}))
-        R.check("C07.1", "CONST", fd, "decode(%r)" % inp, (kind, val) == ("return", want), "base58decode(%r) = %s" % (inp, tm.show(val)),
+        R.check(o(1), "CONST", fd, "decode(%r)" % inp, (kind, val) == ("return", want), "base58decode(%r) = %s" % (inp, tm.show(val)),
                 example="the empty string / a string of '1's")
     # ---- check variants
     evo = ctx.evaluator(opaque={B58 + "base58encode", B58 + "base58decode"})
     fc = ctx.fn(B58 + "base58check")
     got = evo.run(fc).value()
     want = tm.app(B58 + "base58encode", [tm.cat([data, tm.slc(H2(data), None, 4)])], ty=tm.BYTES)
-    R.check("C07.2", "TERM-EQ", fc, "base58check = base58encode(data || SHA256d(data)[:4])", tm.veq(got, want), "base58check: %s" % tm.first_diff(got, want))
+    R.check(o(2), "TERM-EQ", fc, "base58check = base58encode(data || SHA256d(data)[:4])", tm.veq(got, want), "base58check: %s" % tm.first_diff(got, want))
     fcd = ctx.fn(B58 + "base58check_decode")
     s = evo.run(fcd)
     addr = P(fcd.params()[0], tm.BYTES)
     dec = tm.app(B58 + "base58decode", [addr], ty=tm.BYTES)
     payload, cks = tm.slc(dec, None, -4), tm.slc(dec, -4, None)
     rets = s.returns()
-    R.check("C07.2", "TERM-EQ", fcd, "decode returns everything but the last four bytes", len(rets) == 1 and tm.veq(rets[0].value, payload),
+    R.check(o(2), "TERM-EQ", fcd, "decode returns everything but the last four bytes", len(rets) == 1 and tm.veq(rets[0].value, payload),
             "base58check_decode returns %s" % (tm.show(rets[0].value)[:120] if rets else None))
     want_h = tm.slc(H2(payload), None, 4)
     cmp_ok = False
@@ -202,16 +204,16 @@ def run(ctx):
         for f in rules.all_facts(e):
             if isinstance(f, T) and f.op == "cmp" and f.args[0] == "eq" and ((tm.veq(f.args[1], cks) and tm.veq(f.args[2], want_h)) or (tm.veq(f.args[2], cks) and tm.veq(f.args[1], want_h))):
                 cmp_ok = True
-    R.check("C07.2", "DOM", fcd, "payload return dominated by checksum == SHA256d(payload)[:4] (all four bytes, complementary slices)", cmp_ok,
+    R.check(o(2), "DOM", fcd, "payload return dominated by checksum == SHA256d(payload)[:4] (all four bytes, complementary slices)", cmp_ok,
             "the return of base58check_decode is not dominated by `decoded[-4:] == SHA256d(decoded[:-4])[:4]`",
             example="a string with a corrupted or too-short checksum")
-    R.check("C07.2", "DOM", fcd, "mismatch raises", any(e.kind == "raise" for e in s.exits), "a checksum mismatch does not raise")
+    R.check(o(2), "DOM", fcd, "mismatch raises", any(e.kind == "raise" for e in s.exits), "a checksum mismatch does not raise")
     # the only refusal is the checksum: with 4 (empty payload), 5, ... decoded bytes an accepting path exists
     for L in (4, 5, 6, 25, 40):
         evo.bind = {tm.length(dec): L}
         sm = evo.run(fcd)
         acc = [e for e in sm.returns() if tm.land(list(e.guard)) is not False]
-        R.check("C07.2", "DECISION-TABLE", fcd, "a string that decodes to %d bytes (payload of %d) is accepted when its checksum matches" % (L, L - 4), bool(acc),
+        R.check(o(2), "DECISION-TABLE", fcd, "a string that decodes to %d bytes (payload of %d) is accepted when its checksum matches" % (L, L - 4), bool(acc),
                 "base58check_decode refuses every string that decodes to %d bytes (payload of %d bytes), whatever its checksum" % (L, L - 4),
                 example="base58check(b'') = 3QJmnh" if L == 4 else "a %d-byte payload" % (L - 4))
     evo.bind = {}
@@ -225,11 +227,15 @@ def run(ctx):
     ne_forms = [tm.lnot(f) for f in eq_forms]
     catches = not s.raises() and any(tm.contains(g, lambda t: isinstance(t, T) and t.op == "except" and ("Exception" in t.args[0] or "BaseException" in t.args[0]))
                                      for e in s.returns() for g in list(e.guard) + list(e.facts) + [e.value])
-    R.check("C07.4", "EXC", fi, "is_base58check catches every exception", catches,
+    hr = rules.raising_handlers(fi.node)
+    R.check(o(4), "EXC", fi, "is_base58check's exception handler cannot itself raise", not hr,
+            "is_base58check can raise from inside its except branch: %s" % (hr[0][1] if hr else ""), line=hr[0][0].lineno if hr else None,
+            example="a rejected string that is not valid UTF-8, e.g. b'\\xff'")
+    R.check(o(4), "EXC", fi, "is_base58check catches every exception", catches,
             "is_base58check can raise instead of returning False", example="a non-alphabet character")
     leaves = rules.leaf_returns(s)
     okbool = bool(leaves) and all(isinstance(l.value, bool) or (isinstance(l.value, T) and l.value.ty == tm.BOOL) for l in leaves)
-    R.check("C07.4", "EXC", fi, "is_base58check returns booleans", okbool, "is_base58check returns %s" % sorted({tm.show(l.value)[:60] for l in leaves}))
+    R.check(o(4), "EXC", fi, "is_base58check returns booleans", okbool, "is_base58check returns %s" % sorted({tm.show(l.value)[:60] for l in leaves}))
     okt, n_true = True, 0
     for l in leaves:
         if l.value is True:
@@ -238,5 +244,9 @@ def run(ctx):
         elif isinstance(l.value, T):  # the verdict is a boolean term: it must be the checksum comparison itself
             n_true += 1
             okt = okt and any(tm.veq(l.value, q) for q in eq_forms) and not any(isinstance(f, T) and f.op == "except" for f in l.facts)
-    R.check("C07.4", "DOM", fi, "True only when the last four decoded bytes equal SHA256d(payload)[:4]", okt and n_true >= 1,
+    R.check(o(4), "DOM", fi, "True only when the last four decoded bytes equal SHA256d(payload)[:4]", okt and n_true >= 1,
             "is_base58check answers True without the checksum comparison holding", example="a string with a corrupted checksum")
+
+
+def run(ctx):
+    check_base58(ctx)
